@@ -459,11 +459,40 @@ Plan genHostile(const std::string& prop, int tier, uint64_t batchSeed, uint64_t 
     const bool enFault = r.chance(4, 5), enOrphan = r.chance(2, 3), enTecmp = r.chance(1, 2), enNoise = r.chance(1, 2), enRestart = r.chance(1, 3),
                enStale = r.chance(1, 3);
     const uint32_t faultRate = static_cast<uint32_t>(r.pick<int64_t>({5, 15, 30, 60}));
+    if (manyEndpoints)
+    {
+        // every endpoint opens a reassembly first: the pending table grows past its initial bucket counts (13, 29)
+        // while references to other entries are live; continuations follow in the random traffic below
+        for (size_t i = 0; i < nNodes; ++i)
+        {
+            Item& op = g.addOp(OP_RAW, nodeType[i] == 2 ? static_cast<int>(i + 1) : noiseNode, 1);
+            op.set("dev", eps[i].first).set("stream", eps[i].second).set("ver", 1).set("mtype", 1);
+            Item m("m");
+            m.set("kind", 0).set("ptype", 0x20).set("len", r.range(0, 30)).set("id", g.msgId()).set("seg", 1);
+            op.sub.push_back(std::move(m));
+        }
+    }
     for (size_t o = 0; o < nOps; ++o)
     {
         const uint64_t sel = r.below(100);
         const int ni = static_cast<int>(r.below(nNodes));
-        if (sel < 55)
+        if (sel < 2 && nodeType[ni] == 2)
+        {
+            // a jumbo frame: more than 32 KiB / 64 KiB on the wire
+            Item& op = g.addOp(OP_RAW, ni + 1, 1);
+            op.set("ver", 1).set("mtype", 1);
+            const size_t nm = 1 + r.below(4);
+            for (size_t k = 0; k < nm; ++k)
+            {
+                Item m("m");
+                m.set("kind", r.pick<int>({0, wire::K_ETH, wire::K_ANALOG})).set("ptype", 0x20).set("len", r.range(20000, 65535)).set("id", g.msgId());
+                m.set("seg", r.chance(1, 6) ? static_cast<int64_t>(r.below(4)) : 0);
+                op.sub.push_back(std::move(m));
+            }
+            if (enFault && r.chance(1, 2))
+                addTransitFault(g, op, 1);
+        }
+        else if (sel < 55)
         {
             int64_t est = addTrafficOp(g, ni + 1, nodeType[ni], true, 6);
             Item& op = g.plan.items.back();
@@ -654,6 +683,8 @@ Plan genWire(const std::string& prop, int tier, uint64_t batchSeed, uint64_t idx
                         m.set("iwhich", static_cast<int64_t>(r.below(kind == wire::K_CMSTAT ? 5 : 3)));
                         if (r.chance(1, 2))
                             m.set("izero", r.range(1, 4));  // zero bytes right behind the length field: a wrapped length then "fits"
+                        if (r.chance(1, 3))
+                            m.set("ilen2", std::max<int64_t>(0, room - std::min<int64_t>(room, std::max<int64_t>(0, m.get("ilen"))) - r.range(-2, 14))).set("iwhich2", m.get("iwhich") + 1);
                         break;
                     }
                     case 2:
